@@ -311,8 +311,10 @@ class PFITSReader(Filterbank):
             raise ValueError(msg)
 
         startsub, startsamp = divmod(start, self.sub_hdr.subint_samples)
+        # sub-integrations covering [start, start + nsamps), which need not start
+        # on a sub-integration boundary
         nsubs = (
-            nsamps + self.sub_hdr.subint_samples - 1
+            startsamp + nsamps + self.sub_hdr.subint_samples - 1
         ) // self.sub_hdr.subint_samples
         data = self._fitsfile.read_subints(startsub, nsubs)
         data = data[startsamp : startsamp + nsamps]
